@@ -51,7 +51,7 @@ Empty == [
     peSynth |-> FALSE, cmpSnap |-> FALSE, lastSnap |-> NoSnap,
     deadBefore |-> {},
     \* executor sources: futures by id [s, want (scheduled / woken and not polled since), st, drops, v]
-    wakePending |-> FALSE,
+    wakePending |-> FALSE, errCauseNow |-> FALSE,
     fut |-> <<>>, futReady |-> <<>>, polledNow |-> {}, earlyDrop |-> {}, wantAtWait |-> {}, limit |-> 1024,
     viol |-> {}
 ]
@@ -223,7 +223,7 @@ UpdOp(sh, ev) ==
                          !.lastTimerDl = -2000000000, !.opted = Opted(sh),
                          !.bs = [s \in sh.S |-> 0], !.bhe = [s \in sh.S |-> 0],
                          !.synthWanted = {}, !.synthDone = {}, !.idlePhase = FALSE, !.idleRanNow = {}, !.cbTargets = {}, !.appliedNow = FALSE,
-                         !.polledNow = {}, !.futReady = <<>>, !.wantAtWait = {},
+                         !.polledNow = {}, !.futReady = <<>>, !.wantAtWait = {}, !.errCauseNow = FALSE,
                          !.deadBefore = {<<sh.tokens[i].id, sh.tokens[i].ver>> : i \in {j \in DOMAIN sh.tokens : ~LiveTok(sh, j)}}
                                          \ {<<sh.tokens[i].id, sh.tokens[i].ver>> : i \in {j \in DOMAIN sh.tokens : LiveTok(sh, j)}}]
        [] OTHER -> base
@@ -245,6 +245,11 @@ UpdOpret(sh, ev) ==
     [] ev.op = "insert" /\ ev.r \in {"err", "panic"} ->
          [base EXCEPT !.faultSeen = TRUE, !.cmpSnap = co.ctx = 0,
                       !.cbMade = IF co.tgt \in sh.S THEN [@ EXCEPT ![co.tgt] = @ + 1] ELSE @]
+    \* disable() of an fd-backed source that is disabled already: nothing is registered, the unregistration fails (ENOENT)
+    \* and nothing changes; should it "succeed", it still must have no effect (the next snapshot shows a request left
+    \* in the loop's cell, C09)
+    [] ev.op = "disable" /\ co.live /\ co.ctx # tgt /\ ~sh.en[tgt] /\ PlainFdSource(sh, tgt) ->
+         IF ok THEN base ELSE [base EXCEPT !.faultSeen = TRUE, !.cmpSnap = co.ctx = 0]
     [] ev.op = "disable" /\ ok /\ co.live ->
          IF co.ctx = tgt THEN [base EXCEPT !.deferred[tgt] = "disable", !.selfGone[tgt] = TRUE,
                                            !.misuse = @ \/ sh.deferred[tgt] # "continue"]
@@ -264,6 +269,10 @@ UpdOpret(sh, ev) ==
     [] ev.op = "update" /\ co.live /\ co.ctx # tgt /\ ~sh.en[tgt] /\ PlainFdSource(sh, tgt) ->
          IF ok THEN [base EXCEPT !.fuzzy[tgt] = TRUE]
          ELSE [base EXCEPT !.faultSeen = TRUE, !.cmpSnap = co.ctx = 0]
+    \* update() of a disabled TIMER: Timer::reregister is unregister + register, so the timer is armed again -- the
+    \* loop keeps no "disabled" state; from here on it counts as enabled (and a later disable must silence it)
+    [] ev.op = "update" /\ ok /\ co.live /\ co.ctx # tgt /\ ~sh.en[tgt] /\ IsTimer(sh, tgt) /\ sh.life[tgt] = "in" ->
+         Touch(Rearm([base EXCEPT !.en[tgt] = TRUE], tgt), tgt)
     [] ev.op = "update" /\ ok /\ co.live ->
          IF co.ctx = tgt THEN [base EXCEPT !.deferred[tgt] = "reregister",
                                            !.misuse = @ \/ sh.deferred[tgt] # "continue"]
@@ -383,6 +392,7 @@ UpdPeret(sh, ev) ==
       eff == Effective(sh, s, ev.act)
       b00 == [sh EXCEPT !.peStack = IF @ # <<>> THEN FrontOf(@) ELSE @,
                        !.lastPeret = [on |-> TRUE, s |-> s, act |-> ev.act, eff |-> eff],
+                       !.errCauseNow = @ \/ ev.act = "err",
                        !.deferred[s] = "continue", !.selfGone[s] = FALSE,
                        !.fuzzy[s] = @ \/ (ev.act = "err" /\ sh.deferred[s] # "continue")]
       b0 == IF IsTimer(sh, s) /\ sh.durPending[s] >= 0 /\ Has(ev, "us")
@@ -402,14 +412,18 @@ UpdProbeCall(sh, ev) ==
       updDisabled == /\ ev.e = "rereg" /\ ev.r = "err" /\ ev.inj = 0 /\ OpOn(sh)
                      /\ CurOp(sh).op = "update" /\ CurOp(sh).live /\ CurOp(sh).tgt = ev.s /\ CurOp(sh).ctx # ev.s
                      /\ ~sh.en[ev.s] /\ PlainFdSource(sh, ev.s)
-      b0 == IF dupEnable \/ updDisabled THEN [sh EXCEPT !.regErrSeen = TRUE, !.faultSeen = TRUE]
+      disDisabled == /\ ev.e = "unreg" /\ ev.r = "err" /\ ev.inj = 0 /\ OpOn(sh)
+                     /\ CurOp(sh).op = "disable" /\ CurOp(sh).live /\ CurOp(sh).tgt = ev.s /\ CurOp(sh).ctx # ev.s
+                     /\ ~sh.en[ev.s] /\ PlainFdSource(sh, ev.s)
+      b0 == IF dupEnable \/ updDisabled \/ disDisabled THEN [sh EXCEPT !.regErrSeen = TRUE, !.faultSeen = TRUE]
             ELSE IF ev.r = "err" THEN [sh EXCEPT !.regErrSeen = TRUE, !.faultSeen = TRUE,
                                             !.fuzzy[ev.s] = TRUE,
                                             !.c16off = @ \/ ev.inj = 0] ELSE sh
+      b1 == [b0 EXCEPT !.errCauseNow = @ \/ ev.r = "err"]
   IN IF sh.pa.on /\ ev.s = sh.pa.s
-     THEN [b0 EXCEPT !.pa.reregs = IF ev.e = "rereg" THEN @ + 1 ELSE @,
+     THEN [b1 EXCEPT !.pa.reregs = IF ev.e = "rereg" THEN @ + 1 ELSE @,
                      !.pa.unregs = IF ev.e = "unreg" THEN @ + 1 ELSE @]
-     ELSE b0
+     ELSE b1
 
 Upd(sh, ev) ==
   CASE ev.e = "op"      -> UpdOp(sh, ev)
@@ -445,7 +459,7 @@ Upd(sh, ev) ==
     [] ev.e = "synth"   -> [sh EXCEPT !.synthSeen = TRUE]
     [] ev.e = "bs"      -> [sh EXCEPT !.bs[ev.s] = @ + 1,
                                       !.synthWanted = IF ev.synth = 1 THEN @ \cup {ev.s} ELSE @,
-                                      !.faultSeen = @ \/ ev.r = "err"]
+                                      !.faultSeen = @ \/ ev.r = "err", !.errCauseNow = @ \/ ev.r = "err"]
     [] ev.e = "bhe"     -> [sh EXCEPT !.bhe[ev.s] = @ + 1]
     [] ev.e = "synth_pe" -> [sh EXCEPT !.synthDone = @ \cup {ev.s}, !.peSynth = TRUE]
     [] ev.e = "idle_run" -> IF ev.i \in DOMAIN sh.idle
@@ -662,6 +676,10 @@ ViolOpret(sh, ev) ==
           {<<"C12", "wait_cut_short_without_event">>, <<"C05", "cancelled_arming_left_residue_that_wakes_the_loop">>})
   \* idles belong to the first dispatch that returns Ok after their insertion: a failing dispatch runs none
   \cup If(ev.op = "dispatch" /\ ev.r = "err" /\ sh.idleRanNow # {}, {<<"C13", "idle_ran_in_failed_dispatch">>})
+  \* a dispatch fails only for a reason: a source's processing / hook returned an error or a (re/un)registration
+  \* failed -- not because the handle operations a callback issued (all of which returned Ok) were combined
+  \cup If(ev.op = "dispatch" /\ ev.r \notin {"ok", "panic"} /\ ~sh.errCauseNow,
+          {<<"C08", "dispatch_failed_without_cause">>, <<"C09", "dispatch_failed_without_cause">>})
   \cup If(ev.op = "dispatch" /\ ev.r = "ok" /\ sh.synthWanted \ (sh.synthDone \cup sh.touched) # {},
           {<<"C14", "synthetic_event_not_delivered">>})
   \cup If(co.ctx = 0 /\ ev.op \notin {"drop_loop", "insert"}, ReleasedCheck(sh))
